@@ -246,11 +246,52 @@ Definition c03_harness : harness :=
    monotone grammars, happens exactly when some derivation consumes the whole input ---- *)
 Definition top_kind (t : obs) : obs := match t with OT _ (k :: _) => k | _ => t end.
 Definition top_xor (t : obs) : bool := tag_is t "Top" && (tag_is (top_kind t) "Node" || tag_is (top_kind t) "Err").
+(* C04, Evaluate clause (flags bit 2): "given an interpreter for every non-terminal, Evaluate returns a value or an
+   error instead of panicking".  [interp_ok_expr] is the decidable reading of "an interpreter for every non-terminal"
+   that TopProofs.C04_evaluate_total proves sufficient: every sequence carries Nil, Array, a user interpreter, or
+   Select(i) with i below the least number of children the sequence kind can return ([min_children]: SeqOf all its
+   operands, SeqTry / Many1 / SepBy1 one, SeqFirstOrAll one unless it has no operand, Many / SepBy none); a
+   ReturnSingle SeqOf of one operand never builds a node of its own, its interpreter does not matter.  No
+   interpreter (INone), Object (needs key-value children) and Select out of that range are outside: there a panic
+   is the documented behaviour and the oracle says nothing. *)
+Definition min_children (k : seqkind) (n : nat) : nat :=
+  match k with
+  | SeqOf => n
+  | SeqTry => 1
+  | SeqFirstOrAll => Nat.min 1 n
+  | SMany allowEmpty | SSepBy allowEmpty => if allowEmpty then 0 else 1
+  end.
+Definition ip_ok (k : seqkind) (n : nat) (ip : interp) : bool :=
+  match ip with
+  | INil | IArray | IUser _ => true
+  | ISelect i => i <? N.of_nat (min_children k n)
+  | INone | IObject => false
+  end.
+Definition never_own_node (k : seqkind) (single : bool) (n : nat) : bool :=
+  single && match k with SeqOf => Nat.eqb n 1 | _ => false end.
+Fixpoint interp_ok_expr (e : pexpr) : bool :=
+  match e with
+  | PTerm _ | PEmpty | PEnd | PRef _ => true
+  | PMemo _ p | POpt p | PName _ p | PLeftTrim _ p | PRightTrim _ p | PSuppress p | PSingle p => interp_ok_expr p
+  | PAny ps | PChoice ps => forallb interp_ok_expr ps
+  | PSeq k ip single _ ps => (ip_ok k (length ps) ip || never_own_node k single (length ps)) && forallb interp_ok_expr ps
+  end.
+Definition interp_ok_case (rules : list pexpr) (root : pexpr) : bool := forallb interp_ok_expr rules && interp_ok_expr root.
+Definition ev_part (o : obs) : option obs := find (fun p => tag_is p "Ev") (args o).
+Definition ev_shape (x : obs) : bool := tag_is x "Val" || tag_is x "PErr" || tag_is x "EErr".
+Definition c04_eval_oracle (rules : list pexpr) (root : pexpr) (flags : N) (o : obs) : bool :=
+  if N.testbit flags 2 then
+    match ev_part o with
+    | Some ev => if interp_ok_case rules root then forallb ev_shape (args ev) && Nat.eqb (length (args ev)) 2 else true
+    | None => false            (* the driver did not evaluate *)
+    end
+  else true.
 Definition c04_oracle (c : eng_case) (o : obs) : bool :=
   match c with
-  | Eng rules root data offset _ =>
+  | Eng rules root data offset flags =>
     let inp := eng_input data offset in
     let s := eng_part o 1 in let b := eng_part o 2 in
+    c04_eval_oracle rules root flags o &&
     top_xor s && top_xor b &&
     (if tag_is (top_kind s) "Node" then
        match nodes_of_obs (args (top_kind s)) with
@@ -263,7 +304,12 @@ Definition c04_oracle (c : eng_case) (o : obs) : bool :=
      else true)
   end.
 Definition c04_agree (e o : obs) : bool :=
-  obs_eqb (top_kind (eng_part e 1)) (top_kind (eng_part o 1)) && obs_eqb (top_kind (eng_part e 2)) (top_kind (eng_part o 2)).
+  obs_eqb (top_kind (eng_part e 1)) (top_kind (eng_part o 1)) && obs_eqb (top_kind (eng_part e 2)) (top_kind (eng_part o 2)) &&
+  match ev_part e, ev_part o with            (* the Evaluate part, when the case asks for it (flags bit 2) *)
+  | Some a, Some b => obs_eqb a b
+  | None, None => true
+  | _, _ => false
+  end.
 Definition c04_harness : harness :=
   {| H_case := eng_case; H_expected := eng_expected; H_agree := c04_agree; H_oracle := c04_oracle |}.
 
